@@ -5,7 +5,7 @@
    the stated domain, all four float types (fty t), universally over the opaque special functions sp.
    Integer theorems: for EVERY carrier, all operands in Z. *)
 From Coq Require Import Reals ZArith List Bool Lra.
-From ADV Require Import Base.Num C02.Model C02.Spec C02.ProofsInt C02.ProofsReal C02.ProofsRed C02.ProofsConv.
+From ADV Require Import Base.Num C02.Model C02.Spec C02.ProofsInt C02.ProofsReal C02.ProofsRed C02.ProofsConv C02.Ext C02.ProofsExt.
 Import ListNotations.
 
 (* ------------------------------------------------------------------ integer types *)
@@ -206,3 +206,108 @@ Proof.
   simpl. unfold Rtrunc. destruct (Rle_dec 0 0) as [_|N]; [|exfalso; apply N; lra].
   f_equal. unfold Int_part. replace (up 0) with (0 + 1)%Z; [reflexivity|]. apply up_tech; simpl; lra.
 Qed.
+
+(* ------------------------------------------------------------------ round 2: the extended carrier ER = R + {+oo, -oo, NaN} *)
+(* coq/C02/Ext.v: IEEE 754 arithmetic on the infinities and NaN, the elementary functions with Go's / C99's value at
+   +Inf, -Inf, NaN and at the domain edges (table fn_special, tied to the recorded math.* calls on every run). *)
+Notation CE := CarE.
+Theorem C02_ext_elementary_special : forall sp t f a y, fty t -> fn_special f a = Some y ->
+  un (CE sp) t f (VF (er_of_xarg a)) = Val (VF (er_of_xres y)).
+Proof. exact ext_un_special. Qed.
+(* the table, spelled out for the methods named in the property *)
+Example C02_ext_table :
+  fn_special FExp XPInf = Some YPInf /\ fn_special FExp XNInf = Some (YZ 0) /\ fn_special FExp XNaN = Some YNaN
+  /\ fn_special FLog XPInf = Some YPInf /\ fn_special FLog XNInf = Some YNaN /\ fn_special FLog XNaN = Some YNaN
+  /\ fn_special FLog1p XPInf = Some YPInf /\ fn_special FLog1p XNInf = Some YNaN /\ fn_special FLog1p XNaN = Some YNaN
+  /\ fn_special FTanh XPInf = Some (YZ 1) /\ fn_special FTanh XNInf = Some (YZ (-1)) /\ fn_special FTanh XNaN = Some YNaN
+  /\ fn_special FErfc XPInf = Some (YZ 0) /\ fn_special FErfc XNInf = Some (YZ 2) /\ fn_special FErf XNInf = Some (YZ (-1))
+  /\ fn_special FSin XPInf = Some YNaN /\ fn_special FCosh XNInf = Some YPInf /\ fn_special FSinh XNInf = Some YNInf.
+Proof. repeat split. Qed.
+Theorem C02_ext_elementary_finite : forall sp t f x, fty t -> fn_edge f x = EdgeNone ->
+  un (CE sp) t f (VF (EFin x)) = Val (VF (EFin (rfn sp f x))).
+Proof. exact ext_un_finite. Qed.
+Theorem C02_ext_log_zero : forall sp t, fty t -> un (CE sp) t FLog (VF (EFin 0)) = Val (VF ENInf).
+Proof. exact ext_log_zero. Qed.
+Theorem C02_ext_log_negative : forall sp t x, fty t -> x < 0 -> un (CE sp) t FLog (VF (EFin x)) = Val (VF ENaN).
+Proof. exact ext_log_negative. Qed.
+Theorem C02_ext_log1p_minus_one : forall sp t, fty t -> un (CE sp) t FLog1p (VF (EFin (-1))) = Val (VF ENInf).
+Proof. exact ext_log1p_minus_one. Qed.
+Theorem C02_ext_log1p_below : forall sp t x, fty t -> x < -1 -> un (CE sp) t FLog1p (VF (EFin x)) = Val (VF ENaN).
+Proof. exact ext_log1p_below. Qed.
+(* LogAdd = ln(e^a + e^b) and LogSub = ln(e^a - e^b) for ALL a, b in ER (e^-oo = 0, e^+oo = +oo, ln 0 = -oo,
+   ln(negative) = oo - oo = NaN): no hypothesis a > b any more — a < b gives NaN, a = b gives -oo *)
+Theorem C02_ext_logadd : forall sp tc tq ta tb a b, fty tc -> fty tq -> fty ta ->
+  logadd (CE sp) tc tq (ta, VF a) (tb, VF b) = Val (VF (elogadd_spec a b)).
+Proof. exact ext_logadd. Qed.
+Theorem C02_ext_logsub : forall sp tc tq ta tb a b, fty tc -> fty tq ->
+  logsub (CE sp) tc tq (ta, VF a) (tb, VF b) = Val (VF (elogsub_spec a b)).
+Proof. exact ext_logsub. Qed.
+Example C02_ext_log_scale_values : forall x y, x < y ->
+  elogadd_spec EPInf (EFin x) = EPInf /\ elogadd_spec ENInf ENInf = ENInf /\ elogadd_spec (EFin x) ENaN = ENaN
+  /\ elogadd_spec EPInf ENInf = EPInf
+  /\ elogsub_spec EPInf EPInf = ENaN /\ elogsub_spec EPInf (EFin x) = EPInf /\ elogsub_spec (EFin x) EPInf = ENaN
+  /\ elogsub_spec ENInf ENInf = ENInf /\ elogsub_spec (EFin x) (EFin x) = ENInf /\ elogsub_spec (EFin x) (EFin y) = ENaN.
+Proof.
+  intros x y L. unfold elogadd_spec, elogsub_spec. cbn [eexp eadd esub eneg]. pose proof (exp_pos x). pose proof (exp_increasing x y L).
+  rewrite (eln_zero (0 + 0)), (eln_zero (0 - 0)), (eln_zero (exp x - exp x)), (eln_neg (exp x - exp y)) by lra.
+  repeat split.
+Qed.
+Theorem C02_ext_log1pexp_special : forall sp tc a, fty tc -> (forall x, a <> EFin x) ->
+  log1pexp (CE sp) tc (VF a) = Val (VF (elog1pexp_limit a)).
+Proof. exact ext_log1pexp_special. Qed.
+Theorem C02_ext_log1pexp_finite : forall sp tc x, fty tc ->
+  exists y, log1pexp (CE sp) tc (VF (EFin x)) = Val (VF (EFin y)) /\ Rabs (y - ln (1 + exp x)) <= l1pe_err x.
+Proof. exact ext_log1pexp_finite. Qed.
+Example C02_ext_log1pexp_limits : elog1pexp_limit EPInf = EPInf /\ elog1pexp_limit ENInf = EFin 0 /\ elog1pexp_limit ENaN = ENaN.
+Proof.
+  unfold elog1pexp_limit. cbn [eexp eadd]. rewrite eln_pos by lra. repeat split. rewrite Rplus_0_r, ln_1. reflexivity.
+Qed.
+Theorem C02_ext_sigmoid : forall sp tc tq a, fty tc -> fty tq -> sigmoid (CE sp) tc tq (VF a) = Val (VF (esigmoid_spec a)).
+Proof. exact ext_sigmoid. Qed.
+Theorem C02_ext_logistic : forall sp tc a, fty tc -> logistic (CE sp) tc (VF a) = Val (VF (esigmoid_spec a)).
+Proof. exact ext_logistic. Qed.
+Theorem C02_ext_sigmoid_values : forall x,
+  esigmoid_spec (EFin x) = EFin (/ (1 + exp (- x))) /\ esigmoid_spec EPInf = EFin 1 /\ esigmoid_spec ENInf = EFin 0
+  /\ esigmoid_spec ENaN = ENaN.
+Proof. exact esigmoid_values. Qed.
+(* SmoothMax: every real vector, zeros and negative elements included (the theorem on XR above never needed positivity);
+   the empty vector gives 0/0 = NaN.  LogSmoothMax: every vector of NON-NEGATIVE elements (a zero element adds
+   ln 0 = -oo, i.e. nothing, to the numerator; the all-zero vector gives 0); any negative element gives NaN. *)
+Theorem C02_ext_smoothmax : forall sp tr t0 t1 alpha x xs, fty tr -> fty t0 -> fty t1 ->
+  smoothmax (CE sp) tr t0 t1 (efins (x :: xs)) (VF (EFin alpha)) = Val (VF (EFin (smoothmax_spec alpha (x :: xs)))).
+Proof. exact ext_smoothmax. Qed.
+Theorem C02_ext_smoothmax_empty : forall sp tr t0 t1 alpha, fty tr -> fty t0 -> fty t1 ->
+  smoothmax (CE sp) tr t0 t1 [] (VF (EFin alpha)) = Val (VF ENaN).
+Proof. exact ext_smoothmax_empty. Qed.
+Theorem C02_ext_logsmoothmax_nonnegative : forall sp tr t0 t1 t2 tx alpha x xs,
+  fty tr -> fty t0 -> fty t1 -> fty t2 -> List.Forall (fun x => 0 <= x) (x :: xs) ->
+  logsmoothmax (CE sp) tr t0 t1 t2 tx (efins (x :: xs)) (VF (EFin alpha)) = Val (VF (EFin (smoothmax_spec alpha (x :: xs)))).
+Proof. exact ext_logsmoothmax. Qed.
+Theorem C02_ext_logsmoothmax_agrees_with_smoothmax : forall sp tr t0 t1 t2 tx s0 s1 alpha x xs,
+  fty tr -> fty t0 -> fty t1 -> fty t2 -> fty s0 -> fty s1 -> List.Forall (fun x => 0 <= x) (x :: xs) ->
+  logsmoothmax (CE sp) tr t0 t1 t2 tx (efins (x :: xs)) (VF (EFin alpha))
+  = smoothmax (CE sp) tr s0 s1 (efins (x :: xs)) (VF (EFin alpha)).
+Proof. intros. rewrite ext_logsmoothmax, ext_smoothmax by assumption. reflexivity. Qed.
+Theorem C02_ext_logsmoothmax_negative_is_nan : forall sp tr t0 t1 t2 tx alpha xs,
+  fty tr -> fty t0 -> fty t1 -> fty t2 -> List.Exists (fun x => x < 0) xs ->
+  logsmoothmax (CE sp) tr t0 t1 t2 tx (efins xs) (VF (EFin alpha)) = Val (VF ENaN).
+Proof. exact ext_logsmoothmax_negative. Qed.
+Example C02_ext_nonvacuous :
+  List.Forall (fun x => 0 <= x) [0; 2; 3] /\ List.Forall (fun x => 0 <= x) [0; 0] /\ List.Exists (fun x => x < 0) [1; -1]
+  /\ fn_edge FExp 3 = EdgeNone /\ (forall x, EPInf <> EFin x).
+Proof.
+  repeat split; try (repeat constructor; lra); try discriminate.
+Qed.
+
+(* integer Equals: what the generated code computes (the epsilon test on the float64 readings), and the refutation of
+   exact integer equality — known finding F-EQUALS-INT (binary64 witnesses above 2^53: CorrExt.int64_equals_above_2p53) *)
+Theorem C02_int_equals_is_epsilon_test : forall sp ta tb x y e,
+  equals (CX sp) (ta, VI x) (tb, VI y) (Fin e) = Val (Rltb (Rabs (IZR x - IZR y)) e).
+Proof. exact int_equals_is_epsilon_test. Qed.
+Theorem C02_int_equals_refuted : forall sp ta tb x e, e <= 0 -> equals (CX sp) (ta, VI x) (tb, VI x) (Fin e) = Val false.
+Proof. exact int_equals_refuted. Qed.
+(* integer receivers in the middle branch of Log1pExp (18 < x <= 33): the temporary t := NewScalar(c.Type(), 0) is an integer,
+   e^-x truncates to 0 and the result is x itself (= trunc(ln(1+e^x)): x < ln(1+e^x) < x+1) *)
+Theorem C02_int_log1pexp_middle : forall sp t x, int_ty t -> (18 < x <= 33)%Z -> wrap (kbits t) x = x ->
+  log1pexp (CX sp) t (VI x) = Val (VI x).
+Proof. exact int_log1pexp_middle. Qed.
